@@ -78,6 +78,9 @@ func c10Check(c *core.Ctx, s fScenario) {
 	fresh := uint64(0)
 	runForest(c, s, func(site, clause, trigger, detail string) { c.Violate(site, "setup:"+clause, trigger, detail) },
 		func(st *fState) {
+			if st.Quiet {
+				return
+			}
 			for _, in := range st.W.Insts {
 				c10CheckInst(c, st.W, in, st.F, st.When, st.AfterUndo, st.Op.Kind, &fresh)
 			}
